@@ -327,6 +327,50 @@ def solve(ob: Obligation, order: typing.Optional[typing.List[str]] = None) -> Re
     return Result(ob, "unknown", ",".join(order), dt, {}, "", tried)
 
 
+class Z3Session:
+    """A persistent `z3 -in` process for the many small auxiliary queries of VC generation (feasibility pruning,
+    implied-range checks).  Answers here only steer the encoding/path enumeration; they never discharge an obligation."""
+
+    def __init__(self, binary: str = "/usr/bin/z3", timeout_ms: int = 3000):
+        self.argv = [binary, "-in", "-smt2"]
+        self.timeout_ms = timeout_ms
+        self.p: typing.Optional[subprocess.Popen] = None
+        self.queries = 0
+
+    def _start(self) -> None:
+        self.p = subprocess.Popen(self.argv, stdin=subprocess.PIPE, stdout=subprocess.PIPE, stderr=subprocess.STDOUT, text=True, bufsize=1)
+
+    def check(self, decls: typing.List[str], asserts: typing.List[str]) -> str:
+        if self.p is None or self.p.poll() is not None:
+            self._start()
+        assert self.p is not None and self.p.stdin is not None and self.p.stdout is not None
+        self.queries += 1
+        text = "(reset)\n(set-option :timeout %d)\n" % self.timeout_ms + "\n".join(decls) + "\n" + "\n".join(f"(assert {a})" for a in asserts) + "\n(check-sat)\n"
+        try:
+            self.p.stdin.write(text)
+            self.p.stdin.flush()
+            while True:
+                ln = self.p.stdout.readline()
+                if not ln:
+                    self.p = None
+                    return "unknown"
+                ln = ln.strip()
+                if ln in ("sat", "unsat", "unknown", "timeout"):
+                    return ln if ln in ("sat", "unsat") else "unknown"
+                if ln.startswith("(error"):
+                    return "unknown"
+        except (BrokenPipeError, OSError):
+            self.p = None
+            return "unknown"
+
+    def close(self) -> None:
+        if self.p is not None and self.p.poll() is None:
+            try:
+                self.p.kill()
+            except OSError:
+                pass
+
+
 def solve_all(obs: typing.List[Obligation], jobs: int = 0) -> typing.List[Result]:
     jobs = jobs or int(os.environ.get("VK_JOBS", "0")) or min(16, os.cpu_count() or 4)
     with concurrent.futures.ThreadPoolExecutor(max_workers=jobs) as ex:
